@@ -14,12 +14,16 @@ import (
 	"sync"
 	"testing"
 
+	"github.com/remieven/ysgo/variable"
 	"pgregory.net/rapid"
 )
 
 type c18Prog struct {
 	flowCase
 	Seed string `json:"seed"`
+	// SharedFirst, when set, is passed as the first reader before the program's own files; its start node jumps to the
+	// program's first node
+	SharedFirst string `json:"shared_first,omitempty"`
 }
 
 type c18Case struct {
@@ -28,15 +32,38 @@ type c18Case struct {
 }
 
 func c18Run(p c18Prog) (c09Run, error) {
-	h, err := newHost(renderCanonical(p.Script), p.Seed, p.Vars)
+	srcs := renderCanonical(p.Script)
+	if p.SharedFirst != "" {
+		// a library file shared byte for byte by several programs, followed by the program's own files
+		srcs = append([]string{p.SharedFirst}, srcs...)
+	}
+	h, err := newHost(srcs, p.Seed, p.Vars)
 	if err != nil {
 		return c09Run{}, err
 	}
+	// a command that reads its arguments in its own goroutine and completes a little later
+	var emitMu sync.Mutex
+	var emitted []string
+	h.dr.AddCommand("emit", func(args []*variable.Value) <-chan error {
+		ch := make(chan error, 1)
+		go func() {
+			s := showCall("emit", toMvals(args))
+			emitMu.Lock()
+			emitted = append(emitted, s)
+			emitMu.Unlock()
+			ch <- nil
+		}()
+		return ch
+	})
+
 	// the converting registrations read package-level tables
 	_ = h.dr.ConvertAndAddFunction("twice", func(x float64) float64 { return 2 * x })
 	_ = h.dr.ConvertAndAddCommand("note", func(s ...string) error { return nil })
 	h.drive(p.Choices, nil, 30, false)
-	return c09Run{Trace: h.trace, Fn: h.fnLog, Cmd: h.cmdLog, Store: h.finalStore()}, nil
+	emitMu.Lock()
+	cmds := append(append([]string{}, h.cmdLog...), emitted...)
+	emitMu.Unlock()
+	return c09Run{Trace: h.trace, Fn: h.fnLog, Cmd: cmds, Store: h.finalStore()}, nil
 }
 
 // c18Concurrent creates and drives all programs at once behind a start barrier.
@@ -151,7 +178,11 @@ func runC18(c c18Case) Verdict {
 var c18ScriptOpts = scriptOpts{maxNodes: 3, maxDepth: 3, maxBody: 4, random: true, firstLine: true, tracking: true,
 	extraStmt: func(g *scriptGen, depth int) *Stmt {
 		g.lineID++
-		switch rapid.IntRange(0, 2).Draw(g.t, "c18stmt") {
+		switch rapid.IntRange(0, 4).Draw(g.t, "c18stmt") {
+		case 3:
+			return &Stmt{K: "cmd", Words: []TextPart{{S: "wait"}, {S: rapid.SampledFrom([]string{"0", "0.0001", "0.001"}).Draw(g.t, "secs")}}}
+		case 4:
+			return &Stmt{K: "cmd", Words: []TextPart{{S: "emit"}, {S: fmt.Sprintf("tag%d", g.lineID)}, {E: bin("+", varRef("k1"), num(fmt.Sprint(g.lineID)))}}}
 		case 0:
 			return &Stmt{K: "line", Text: []TextPart{{S: fmt.Sprintf("Bob: L%d \\[x\\] [b]bold [i/] é[/b] [select value=m m=\"he\" /] [nomarkup][raw][/nomarkup] [plural value=2 one=\"a\" other=\"%% b\"]x[/plural] [select value=f f=\"she\"]y[/select]", g.lineID)}}}
 		case 1:
@@ -172,6 +203,19 @@ var c18Concurrently = Register(Prop[c18Case]{
 			}
 			f := genFlowCase(t, c18ScriptOpts)
 			f.Junk = nil
+			if rapid.IntRange(0, 2).Draw(t, "storm") == 0 {
+				// a program that fires many asynchronous commands in a row, each with its own arguments
+				n := rapid.IntRange(40, 160).Draw(t, "commands")
+				var body []*Stmt
+				for k := 0; k < n; k++ {
+					if k%7 == 3 {
+						body = append(body, &Stmt{K: "cmd", Words: []TextPart{{S: "wait"}, {S: "0.0001"}}})
+					}
+					body = append(body, &Stmt{K: "cmd", Words: []TextPart{{S: "emit"}, {S: fmt.Sprintf("r%d", i)}, {E: num(fmt.Sprint(k))}, {E: call("string", bin("+", varRef("k1"), num(fmt.Sprint(k))))}}})
+				}
+				body = append(body, &Stmt{K: "line", Text: []TextPart{{S: "storm over"}}})
+				f.Script = &Script{Files: [][]*Node{{{Title: "A", Body: body}}}}
+			}
 			seed := genSeedLegal(t)
 			if rapid.IntRange(0, 3).Draw(t, "emptyseed") == 0 {
 				seed = ""
@@ -179,6 +223,22 @@ var c18Concurrently = Register(Prop[c18Case]{
 			c.Programs = append(c.Programs, c18Prog{flowCase: f, Seed: seed})
 		}
 		c.Rounds = rapid.IntRange(1, 3).Draw(t, "rounds")
+		if rapid.IntRange(0, 2).Draw(t, "shared") == 0 {
+			// every program gets the same library file in front: k nodes chained by jumps, the last one jumps to the
+			// program's own first node (title A)
+			k := rapid.IntRange(1, 9).Draw(t, "librarynodes")
+			var b strings.Builder
+			for i := 0; i < k; i++ {
+				next := "A"
+				if i < k-1 {
+					next = fmt.Sprintf("Lib%d", i+1)
+				}
+				fmt.Fprintf(&b, "title: Lib%d\n---\nlibrary line %d\n<<jump %s>>\n===\n", i, i, next)
+			}
+			for i := range c.Programs {
+				c.Programs[i].SharedFirst = b.String()
+			}
+		}
 		return c
 	},
 	Run: runC18,
